@@ -352,12 +352,15 @@ def validate(ctx, lines, K, npa=1, nra=1, maxfail=8):
 
 def selftest(ctx, lines, K):
     """Binding: flip one recorded verdict of an accepted exchange -> TLC must stop exactly there."""
-    ls = [json.loads(json.dumps(l)) for l in lines[:400]]
-    target = next((n for n, l in enumerate(ls) if l["ev"] == "xverdict" and l["sreq"] == "ok" and l["invoked"] and n > 20
-                   and not ls[n - 1].get("raw") and all(x["s"] == "plain" for x in ls[n - 1]["pv"] if x["cls"] != "absent")
-                   and ls[n - 1]["pa"][0]["rule"] == "none" and ls[n - 1]["pa"][0]["nest"] == "direct" and ls[n - 1]["pa"][0]["kind"] == "int"), None)
+    def plain(n):
+        r = lines[n - 1]
+        return (lines[n]["ev"] == "xverdict" and lines[n]["sreq"] == "ok" and lines[n]["invoked"] and r.get("ev") == "xreset" and r["flag"] == "none"
+                and r["pa"][0]["rule"] == "none" and r["pa"][0]["nest"] == "direct" and r["pa"][0]["loc"] == "body" and r["pa"][0]["mode"] == "required"
+                and all(x["cls"] != "absent" and x["s"] == "plain" for x in r["pv"]))
+    target = next((n for n in range(21, len(lines)) if plain(n)), None)
     if target is None:
-        return
+        raise core.Infra("trace self-test: no plain accepted exchange in the trace")
+    ls = [json.loads(json.dumps(l)) for l in lines[:target + 3]]
     ls[target]["sreq"] = "invalid"
     d = ctx.subdir("selftest")
     p = os.path.join(d, "trace.ndjson")
